@@ -243,7 +243,7 @@ def main():
         not_applicable=na,
         notes=("All checks are static analysis of /repo's working tree (python3-vt check.py --property Cxx). Exit 0 = all "
                "obligations discharged, 1 = VIOLATION, 2 = ANALYSIS-ERROR (anchor vanished / unsupported construct; "
-               "fail-closed). Known findings: known_findings.json. Validation corpora: seeded/ (330 breaking changes, tools/run_seeded.py), "
+               "fail-closed). Known findings: known_findings.json. Validation corpora: seeded/ (353 breaking changes, tools/run_seeded.py), "
                "benign/ (270 behaviour-preserving refactorings, tools/run_benign.py), selftest/ (132 edits)."),
     )
     (VERIF / "MANIFEST.json").write_text(json.dumps(m, indent=1))
